@@ -88,12 +88,16 @@ impl GossipState {
 
     pub async fn broadcast(&mut self, namespace: &NamespaceId, message: Bytes) {
         if let Some(state) = self.active.get_mut(namespace) {
+            #[cfg(iroh_docs_verif)]
+            crate::verif::record_broadcast(*namespace, false, &message);
             state.sender.broadcast(message).await.ok();
         }
     }
 
     pub async fn broadcast_neighbors(&mut self, namespace: &NamespaceId, message: Bytes) {
         if let Some(state) = self.active.get_mut(namespace) {
+            #[cfg(iroh_docs_verif)]
+            crate::verif::record_broadcast(*namespace, true, &message);
             state.sender.broadcast_neighbors(message).await.ok();
         }
     }
@@ -104,6 +108,12 @@ impl GossipState {
 
     pub fn is_empty(&self) -> bool {
         self.active.is_empty()
+    }
+
+    /// Verification hook: the topics that are joined.
+    #[cfg(iroh_docs_verif)]
+    pub fn verif_active(&self) -> Vec<NamespaceId> {
+        self.active.keys().copied().collect()
     }
 
     /// Progress the internal task queues.
